@@ -30,12 +30,11 @@ partial def loop (h : IO.FS.Stream) (c : Counts) : IO Counts := do
     let (lhs, rhs) := splitArrow toks
     match lhs with
     | comp :: fn :: args =>
-      match expected comp fn args with
-      | some e =>
-        if e == unwords rhs then loop h { c with total := c.total + 1, ok := c.ok + 1 }
-        else do
-          IO.println s!"DIFF {line} || expected {e}"
-          loop h { c with total := c.total + 1, diff := c.diff + 1 }
+      match check comp fn args rhs with
+      | some none => loop h { c with total := c.total + 1, ok := c.ok + 1 }
+      | some (some e) => do
+        IO.println s!"DIFF {line} || expected {e}"
+        loop h { c with total := c.total + 1, diff := c.diff + 1 }
       | none => do
         IO.println s!"SKIP {line}"
         loop h { c with total := c.total + 1, skip := c.skip + 1 }
